@@ -233,6 +233,12 @@ class Rules:
         # R13 debug_assert! is compiled out of release builds; dropped
         b = self.sub('R13', r'debug_assert!' + PAREN + r';', '', b)
         b = self.sub('R8', r'log::\w+!' + PAREN + r';', '', b)
+        # R12: iterator searches on a Vec -> trusted helpers whose contracts speak about the closure's own ensures
+        RECV = r'((?:&?\w+)(?:\s*\.\s*\w+)*)'
+        for meth, helper in (('position', 'iter_position'), ('find', 'iter_find'), ('any', 'iter_any'), ('all', 'iter_all')):
+            b = self.sub('R12', RECV + r'\s*\.iter\(\)\s*\.%s\(' % meth, lambda m, h=helper: '%s(&%s, ' % (h, norm_ws(m.group(1)).replace(' ', '')), b)
+        b = self.sub('R12', RECV + r'\s*\.iter_mut\(\)\s*\.find\(', lambda m: 'iter_mut_find(&mut %s, ' % norm_ws(m.group(1)).replace(' ', ''), b)
+        b = self.sub('R12', RECV + r'\s*\.as_ref\(\)\s*\.is_some_and\(', lambda m: 'opt_is_some_and(%s.as_ref(), ' % norm_ws(m.group(1)).replace(' ', ''), b)
         # R24: `.clone()` -> `.vclone()` (blanket trusted helper: Clone returns a structurally equal value, T4)
         b = self.sub('R24', r'\.clone\(\)', '.vclone()', b)
         return b
@@ -303,6 +309,62 @@ def annotate_loops(body, loops, unit):
 
 
 # --------------------------------------------------------------------------
+# closures (R11): |p| BODY  ->  |p: T| -> (ret: U) ensures E { BODY }   (BODY is the source text)
+# --------------------------------------------------------------------------
+
+CLOSURE_RX = re.compile(r'(?<![\w|])(move\s+)?\|([^|]*)\|(?!\|)')
+
+
+def find_closures(body):
+    res = []
+    for m in CLOSURE_RX.finditer(body):
+        # reject `||` operators and patterns like a | b in match arms: require the char before to be ( , = or whitespace after those
+        pre = body[:m.start()].rstrip()
+        if not pre or pre[-1] not in '(,=':
+            continue
+        j = m.end()
+        while j < len(body) and body[j] in ' \n\t':
+            j += 1
+        if j < len(body) and body[j] == '{':
+            e = match_close(body, j) + 1
+        else:
+            d = 0
+            e = j
+            while e < len(body):
+                ch = body[e]
+                if ch in '([{':
+                    d += 1
+                elif ch in ')]}':
+                    if d == 0:
+                        break
+                    d -= 1
+                elif ch == ',' and d == 0:
+                    break
+                elif ch == ';' and d == 0:
+                    break
+                e += 1
+        res.append((m.start(), m.end(), j, e, m.group(2)))
+    return res
+
+
+def annotate_closures(body, closures, unit):
+    found = find_closures(body)
+    if len(found) != len(closures):
+        raise LostAnchor('closure skeleton of %s changed: found %d closures, contract written for %d' % (unit, len(found), len(closures)))
+    for k in reversed(range(len(closures))):
+        found = find_closures(body)
+        st, pe, bs, be, params = found[k]
+        c = closures[k]
+        if norm_ws(params) != norm_ws(c['params']):
+            raise LostAnchor('closure %d of %s has parameters |%s|, contract written for |%s|' % (k + 1, unit, params, c['params']))
+        src = body[bs:be]
+        inner = src if src.lstrip().startswith('{') else '{ ' + src.strip() + ' }'
+        new = '|%s| -> (ret: %s)%s%s %s' % (c['typed'], c['ret'], (' requires ' + c['requires']) if c.get('requires') else '', (' ensures ' + c['ensures']) if c.get('ensures') else '', inner)
+        body = body[:st] + new + body[be:]
+    return body
+
+
+# --------------------------------------------------------------------------
 # units
 # --------------------------------------------------------------------------
 
@@ -310,7 +372,7 @@ class Unit:
     """One function of /repo under contract."""
 
     def __init__(self, name, file, fn, header, impl=None, sig=None, wrap=('', ''), loops=(), subs=(), proofs=(),
-                 pre='', anyhow=True, fn_rx=None, serves=(), note='', rules=True, post_subs=(), text=None, subs_all=()):
+                 pre='', anyhow=True, fn_rx=None, serves=(), note='', rules=True, post_subs=(), text=None, subs_all=(), closures=None):
         self.name = name          # display name, e.g. "Bound::pow"
         self.file = file
         self.impl = impl          # regex of the impl header (None = free fn)
@@ -323,6 +385,7 @@ class Unit:
         self.subs = list(subs)    # (from, to) exact-text, each exactly once, applied after the rules
         self.post_subs = list(post_subs)
         self.subs_all = list(subs_all)   # (from, to, count): every occurrence, count must match
+        self.closures = closures  # None = not checked; else list of dicts (params, typed, ret, ensures)
         self.proofs = list(proofs)  # (anchor, text): anchor 'start' | ('before', regex) | ('after', regex)
         self.pre = pre            # text emitted before the impl (e.g. SpecImpl blocks)
         self.anyhow = anyhow
@@ -351,6 +414,8 @@ class Unit:
             if body.count(a) != cnt:
                 raise LostAnchor('substitution source %r occurs %d times in %s (contract written for %d)' % (a, body.count(a), self.name, cnt))
             body = body.replace(a, b)
+        if self.closures is not None:
+            body = annotate_closures(body, self.closures, self.name)
         body = annotate_loops(body, self.loops, self.name)
         for a, b in self.post_subs:
             if body.count(a) != 1:
